@@ -401,6 +401,10 @@ func c04Gen(g *core.Gen) {
 	}
 	wide := scen.P1Config{Sizes: sz, Volumes: 5}
 	c04Deviate(g, wide, 2)
+	// index files under other base names (ending in characters of the extension, dotted, named like a volume)
+	for _, b := range []string{"data", "a", "extra", "foo.par", "s.p01", "par", "r.", "Backup p"} {
+		c04Deviate(g, scen.P1Config{Sizes: []int{7, 4, 9}, Volumes: 2, Base: b}, 2)
+	}
 }
 
 // c04Deviate emits all scenarios with at most D non-default choices among
